@@ -1,5 +1,5 @@
 """C04 -- integer kernels of the assembler's label / displacement arithmetic, on the real functions.
-`RiscvParser._convert_label_or_imm` is executed as is (its ParseResults argument replaced by a stub exposing the four
+`RiscvParser._convert_label_or_imm` is executed as is on a real parser object (helpers on `self` are followed; its ParseResults argument replaced by a stub exposing the four
 token fields it reads); the JAL numeric-operand adjustment is a mechanical slice of `_write_instructions`."""
 from pyvc.api import *
 from architecture_simulator.isa.riscv.riscv_parser import RiscvParser
@@ -24,11 +24,11 @@ def label_operand():
     la = sym_int("label_address", 0)
     ac = sym_int("address_count", 0)
     for off_text, off in (("", 0), ("0x8", 8), ("0x10", 16), ("0xFFC", 4092)):
-        r = RiscvParser._convert_label_or_imm(None, Tok(label="L", offset=off_text), {"L": la, "M": 4}, ac, line="beq x0, x0, L", line_number=7)
+        r = RiscvParser._convert_label_or_imm(RiscvParser(), Tok(label="L", offset=off_text), {"L": la, "M": 4}, ac, line="beq x0, x0, L", line_number=7)
         check("displacement_is_label_plus_offset_minus_own_address", r == la + off - ac)
     reach("resolved")
     try:
-        RiscvParser._convert_label_or_imm(None, Tok(label="nosuch"), {"L": la}, ac, line="beq x0, x0, nosuch", line_number=7)
+        RiscvParser._convert_label_or_imm(RiscvParser(), Tok(label="nosuch"), {"L": la}, ac, line="beq x0, x0, nosuch", line_number=7)
     except ParserLabelException as e:
         reach("unknown")
         check("unknown_label_reports_its_line", e.line_number == 7)
@@ -41,11 +41,11 @@ def numeric_operand():
     ac = sym_int("address_count", 0)
     for text, v in (("8", 8), ("-4", -4), ("0x10", 16), ("-0b110", -6), ("4094", 4094), ("0", 0)):
         tok = Tok(imm=text)
-        r = RiscvParser._convert_label_or_imm(None, tok, {}, ac, line="l", line_number=2)
+        r = RiscvParser._convert_label_or_imm(RiscvParser(), tok, {}, ac, line="l", line_number=2)
         check("numeric_operand_is_taken_as_written", r == v)
     reach("even")
     try:
-        RiscvParser._convert_label_or_imm(None, Tok(imm="7"), {}, ac, line="beq x0, x0, 7", line_number=5)
+        RiscvParser._convert_label_or_imm(RiscvParser(), Tok(imm="7"), {}, ac, line="beq x0, x0, 7", line_number=5)
     except ParserOddImmediateException as e:
         reach("odd")
         check("odd_immediate_reports_its_line", e.line_number == 5)
